@@ -8,11 +8,24 @@ verus! {
 #[verifier::external_type_specification]
 #[verifier::external_body]
 pub struct ExRecord<'a>(log::Record<'a>);
+#[verifier::external_type_specification]
+#[verifier::external_body]
+pub struct ExStderr(std::io::Stderr);
+#[verifier::external_type_specification]
+#[verifier::external_body]
+pub struct ExStdout(std::io::Stdout);
+pub assume_specification[ std::io::stderr ]() -> (r: std::io::Stderr);
+pub assume_specification[ std::io::stdout ]() -> (r: std::io::Stdout);
 
+pub mod logger {
+    use super::*;
+    //@ item src/logger.rs enum Duplicate
+}
 pub mod shims {
     use super::*;
     use log::Record;
     use std::path::PathBuf;
+    use std::io::{Stderr, Stdout};
     pub struct DeferredNow { _o: () }
     pub struct FlexiLoggerError { _o: () }
     pub struct LogfileSelector { _o: () }
@@ -56,6 +69,38 @@ pub mod shims {
     writer_shim!(StdWriter, 0int);
     writer_shim!(MultiWriter, 1int);
     writer_shim!(TestWriter, 2int);
+    /// the constructors' arguments: what PrimaryWriter::{multi, stderr, stdout, test} must hand on, argument by argument.
+    /// The constructors themselves are `sig` directives (signatures read from the source on every run), so their
+    /// contracts are stated by parameter *name* and a changed parameter order shows at the call sites.
+    pub struct FormatFunction { pub id: int }
+    pub struct WriteMode { pub id: int }
+    /// a mode that makes a writer flush on its own (units `wmode`, `lbuild`: the Logger never keeps one); the std writer's
+    /// constructor has no implementation for it (`unreachable!`, `assert_eq!`: unit `stdw`)
+    pub uninterp spec fn own_flushing(m: WriteMode) -> bool;
+    pub struct FileLogWriter { _o: () }
+    pub trait LogWriter {}
+    pub use super::logger::Duplicate;
+    //@ item src/primary_writer/std_stream.rs enum StdStream
+    pub uninterp spec fn mw_made(de: Duplicate, dout: Duplicate, sc: bool, fe: FormatFunction, fo: FormatFunction, fw: Option<Box<FileLogWriter>>, ow: Option<Box<dyn LogWriter>>) -> MultiWriter;
+    pub uninterp spec fn sw_made(to_stdout: bool, f: FormatFunction, m: WriteMode) -> StdWriter;
+    pub uninterp spec fn tw_made(to_stdout: bool, f: FormatFunction) -> TestWriter;
+    impl MultiWriter {
+    //@ sig src/primary_writer/multi_writer.rs impl MultiWriter / fn new
+    //@   ret r
+    //@   ens r == mw_made(duplicate_stderr, duplicate_stdout, support_capture, format_for_stderr, format_for_stdout, o_file_writer, o_other_writer)
+    }
+    impl StdWriter {
+    //@ sig src/primary_writer/std_writer.rs impl StdWriter / fn new
+    //@   ret r
+    //@   props C10
+    //@   req[StdWriter::new.pre.no_own_flushing] !own_flushing(*write_mode)
+    //@   ens r == sw_made(stdstream is Out, format, *write_mode)
+    }
+    impl TestWriter {
+    //@ sig src/primary_writer/test_writer.rs impl TestWriter / fn new
+    //@   ret r
+    //@   ens r == tw_made(stdout, format)
+    }
     impl MultiWriter {
         #[verifier::external_body]
         pub(crate) fn existing_log_files(&self, selector: &LogfileSelector) -> (r: Result<Vec<PathBuf>, FlexiLoggerError>)
@@ -71,6 +116,27 @@ pub mod primary_writer {
     //@ item src/primary_writer.rs enum PrimaryWriter
     impl PrimaryWriter {
         pub closed spec fn kind(&self) -> int { match self { PrimaryWriter::Std(_) => 0, PrimaryWriter::Multi(_) => 1, PrimaryWriter::Test(_) => 2 } }
+        pub closed spec fn is_multi_of(&self, m: MultiWriter) -> bool { *self == PrimaryWriter::Multi(m) }
+        pub closed spec fn is_std_of(&self, m: StdWriter) -> bool { *self == PrimaryWriter::Std(m) }
+        pub closed spec fn is_test_of(&self, m: TestWriter) -> bool { *self == PrimaryWriter::Test(m) }
+    //@ fn src/primary_writer.rs impl PrimaryWriter / fn multi
+    //@   ret r
+    //@   props C20,C13,C15
+    //@   ens[PrimaryWriter::multi.post] r.is_multi_of(mw_made(duplicate_stderr, duplicate_stdout, support_capture, format_for_stderr, format_for_stdout, o_file_writer, o_other_writer))
+    //@ fn src/primary_writer.rs impl PrimaryWriter / fn stderr
+    //@   ret r
+    //@   props C20,C15
+    //@   req[PrimaryWriter::stderr.pre.no_own_flushing] !own_flushing(*write_mode)
+    //@   ens[PrimaryWriter::stderr.post] r.is_std_of(sw_made(false, format, *write_mode))
+    //@ fn src/primary_writer.rs impl PrimaryWriter / fn stdout
+    //@   ret r
+    //@   props C20,C15
+    //@   req[PrimaryWriter::stdout.pre.no_own_flushing] !own_flushing(*write_mode)
+    //@   ens[PrimaryWriter::stdout.post] r.is_std_of(sw_made(true, format, *write_mode))
+    //@ fn src/primary_writer.rs impl PrimaryWriter / fn test
+    //@   ret r
+    //@   props C20
+    //@   ens[PrimaryWriter::test.post] r.is_test_of(tw_made(stdout, format))
     //@ fn src/primary_writer.rs impl PrimaryWriter / fn write
     //@   ret r
     //@   props C13,C02
